@@ -429,6 +429,10 @@ pub fn run(ctx: &Ctx) -> Result<(), String> {
     }
     // part 2: start-up schedules under the controlled scheduler
     let sched = crate::sched::c15_startup_schedules(ctx)?;
+    // TLA+ lifecycle model (invariant NoWorkerLostBeforeSignal among others) bound to the
+    // implementation by replaying a transition cover of its state graph
+    let model = crate::sched::lifecycle_conformance(ctx, 2, true)?;
+    ctx.cov("lifecycle_model", model);
 
     ctx.cov("states", json!(classes.lock().unwrap().len() as u64 + hist_n.load(Relaxed) + sched.states));
     ctx.cov("transitions", json!(transitions.load(Relaxed) + sched.transitions + evals.load(Relaxed)));
